@@ -19,7 +19,7 @@ impl Writer {
 
 //@extract src/writer.rs | impl<D: Distance> Writer<D> | delete_items_in_file
 //@attr #[verifier::exec_allows_no_decreases_clause]
-//@hint after <<<options.cancelled()?;>>>
+//@hint start <<<>>>
         let ghost m = tmap(rtxn.view(), self.index);
         let ghost s = tnodes(m, tn(current_node));
         let ghost t0 = tmp_nodes.tv();
